@@ -97,6 +97,7 @@ _HARDCODED_EXCLUDE_DIRS: frozenset[str] = frozenset(
 # Config sections whose name differs from the prefix of the rule ids they govern
 _LINTER_SECTION_ALIASES: dict[str, tuple[str, ...]] = {
     "improper-logging": ("improper-logging", "print-statements"),
+    "collection-pipeline": ("collection-pipeline", "pipeline"),
 }
 
 
